@@ -11,7 +11,7 @@
 #include <parmcb/forestindex.hpp>
 #include <set>
 
-enum Ctr { C_EVAL = 0, C_INPUTS, C_NONTRIV };
+enum Ctr { C_EVAL = 0, C_INPUTS, C_NONTRIV, C_SKIPPED };
 
 typedef double W;
 typedef vb::Built<W> B;
@@ -272,12 +272,14 @@ int main(int argc, char **argv) {
     if (A.has("families")) fams = vr::split(A.get("families"), ',');
     std::unique_ptr<vg::BlobUniverse> blob;
     if (A.has("grammar")) { auto t = vr::split(A.get("grammar"), ':'); blob.reset(new vg::BlobUniverse(atoi(t[1].c_str()), atoi(t[2].c_str()))); }
-    uint64_t total_units = blob ? blob->size() : fams.empty() ? vg::num_graphs(n) : fams.size();
+    int sparse_m = (int) A.geti("sparse", -1);     // --n N --sparse M: every graph on N vertices with at most M edges
+    uint64_t total_units = blob ? blob->size() : !fams.empty() ? fams.size() : sparse_m >= 0 ? vg::num_sparse_graphs(n, sparse_m) : vg::num_graphs(n);
     uint64_t seed = (uint64_t) A.geti("seed", 0);
-    int max_m = (int) A.geti("max-m", 62);
+    // only the candidate-collection oracle works on 64-bit edge masks; the other components take graphs of any size
+    int max_m = (int) A.geti("max-m", comp == "collections" ? 62 : (1 << 30));
     bool weighted = (comp == "sptree" || comp == "collections");
     int orient_mode = (int) A.geti("orient", 0);
-    auto unit_graph0 = [&](uint64_t u) { uint64_t uu = (u + seed) % total_units; return blob ? blob->build(uu) : fams.empty() ? vg::graph_from_mask(n, uu) : vg::family(fams[uu]); };
+    auto unit_graph0 = [&](uint64_t u) { uint64_t uu = (u + seed) % total_units; return blob ? blob->build(uu) : !fams.empty() ? vg::family(fams[uu]) : sparse_m >= 0 ? vg::sparse_graph(n, sparse_m, uu) : vg::graph_from_mask(n, uu); };
     auto unit_graph = [&](uint64_t u) { vg::EdgeList g = unit_graph0(u); vg::orient(g, orient_mode); return g; };
     auto describe = [&](uint64_t u, uint64_t sub, uint64_t) {
         vg::EdgeList el = unit_graph(u);
@@ -289,7 +291,7 @@ int main(int argc, char **argv) {
     };
     auto work = [&](uint64_t u, uint64_t start_sub) {
         vg::EdgeList el = unit_graph(u);
-        if (el.m() > max_m) return;
+        if (el.m() > max_m) { R.count(C_SKIPPED); return; }
         int dim = vg::cycle_space_dim(el);
         std::vector<double> w; vg::weighting(alpha, el.m(), 0, w);
         if (edge_orders) {
@@ -331,8 +333,8 @@ int main(int argc, char **argv) {
     }
     FILE *o = A.has("out") ? fopen(A.get("out").c_str(), "w") : stdout;
     fprintf(o, "{\"harness\":\"components\",\"evaluations\":%" PRIu64 ",\"inputs\":%" PRIu64 ",\"distinct_nontrivial\":%" PRIu64
-            ",\"units_total\":%" PRIu64 ",\"units_done\":%" PRIu64 ",\"capped\":%s,\"crashes\":%" PRIu64 ",\"hangs\":%" PRIu64 ",\"nviol\":%" PRIu64 ",\"wall_s\":%.3f,\n\"samples\":[",
-            R.counter(C_EVAL), R.counter(C_INPUTS), R.counter(C_NONTRIV), res.units_total, res.units_done,
+            ",\"skipped_above_max_m\":%" PRIu64 ",\"units_total\":%" PRIu64 ",\"units_done\":%" PRIu64 ",\"capped\":%s,\"crashes\":%" PRIu64 ",\"hangs\":%" PRIu64 ",\"nviol\":%" PRIu64 ",\"wall_s\":%.3f,\n\"samples\":[",
+            R.counter(C_EVAL), R.counter(C_INPUTS), R.counter(C_NONTRIV), R.counter(C_SKIPPED), res.units_total, res.units_done,
             res.capped ? "true" : "false", res.crashes, res.hangs, res.nviol, wall);
     for (size_t i = 0; i < samples.size(); ++i) fprintf(o, "%s\"%s\"", i ? "," : "", vr::json_escape(samples[i]).c_str());
     fprintf(o, "],\n\"violations\":[");
